@@ -18,7 +18,7 @@ def spec(tier, seed):
                                              permissions="symbolic Option<mode> for old, new, file")))
     # (e) rename undo at ModifiedFile level
     for st in (0, 1, 2):
-        inst.append(Instance("c04e_rename_b%d" % st, "patch", "rename_case(%d)" % st, unwind=6, unwindset={"memcmp.0": 3},
+        inst.append(Instance("c04e_rename_b%d" % st, "patch", "rename_case(%d)" % st, unwind=12, unwindset={"memcmp.0": 3},
                              features=True, cap=4, mem_gb=4, timeout_s=600, sub="C04e rename undo (move_out/move_in)",
                              params=dict(target_state=["absent", "exists empty", "exists non-empty"][st])))
     # (a) modify: apply + rollback
@@ -35,15 +35,16 @@ def spec(tier, seed):
                 for f in (0, 1):
                     for d in ("fwd", "rev"):
                         two.append((3, sh, [l1, l2], f, d))
+    # measured: one hunk N=3 symbolic stated line 230 s / 5 GB; two hunks N=3 stated lines from the matrix 540 s / 11 GB
     if tier == "quick":
         ch1 = rotate(one, seed, 4)
-        ch2 = rotate(two, seed, 6)
+        ch2 = rotate(two, seed, 2)
     else:
         ch1, ch2 = one, two
     for (n, sh, ls, f, d) in ch1:
-        inst.append(apply_inst("c04a", n, sh, ls, f, d, ["rollback"], "C04a modify: apply + rollback, one hunk, symbolic stated line", mem_gb=10))
+        inst.append(apply_inst("c04a", n, sh, ls, f, d, ["rollback"], "C04a modify: apply + rollback, one hunk, symbolic stated line", mem_gb=9, timeout=1800))
     for (n, sh, ls, f, d) in ch2:
-        inst.append(apply_inst("c04a", n, sh, ls, f, d, ["rollback"], "C04a modify: apply + rollback, two hunks", mem_gb=8))
+        inst.append(apply_inst("c04a", n, sh, ls, f, d, ["rollback"], "C04a modify: apply + rollback, two hunks", mem_gb=15, timeout=2400))
     return {
         "instances": inst,
         "level": "model_checking",
